@@ -171,3 +171,96 @@ def pose_at(t: T) -> Optional[Tuple[str, str, T]]:
         if v is not None:
             return v[0], v[1], t.args[1]
     return None
+
+
+# ------------------------------------------------------------- intervals
+import math
+
+
+def interval(t: T):
+    """sound interval of a (scalar or element-wise) numeric expression built
+    from the few functions angle computations use; None = unknown.
+    Used only to refute 'geodesic angle in [0, pi]'."""
+    INF = float("inf")
+    if tm.is_const(t) and isinstance(t.args[1], (int, float)) and \
+            not isinstance(t.args[1], bool):
+        return float(t.args[1]), float(t.args[1])
+    if t.op == "global" and t.args[0] in ("numpy.pi", "math.pi"):
+        return math.pi, math.pi
+    if t.op == "call":
+        n = tm.callee_name(t) or ""
+        a = t.args[1]
+        if n in ("numpy.clip",) and len(a) == 3:
+            lo, hi = interval(a[1]), interval(a[2])
+            if lo and hi:
+                return lo[0], hi[1]
+        if n in ("numpy.arccos", "math.acos") and a:
+            x = interval(a[0])
+            if x and -1.0 <= x[0] and x[1] <= 1.0:
+                return math.acos(x[1]), math.acos(x[0])
+            return 0.0, math.pi
+        if n in ("numpy.arcsin", "math.asin") and a:
+            return -math.pi / 2, math.pi / 2
+        if n in ("numpy.arctan2", "math.atan2"):
+            return -math.pi, math.pi
+        if n in ("numpy.abs", "numpy.fabs", "builtins.abs",
+                 "numpy.absolute") and a:
+            x = interval(a[0])
+            if x:
+                m = max(abs(x[0]), abs(x[1]))
+                lo = 0.0 if x[0] <= 0 <= x[1] else min(abs(x[0]), abs(x[1]))
+                return lo, m
+            return 0.0, INF
+        if n in ("numpy.rad2deg", "numpy.degrees", "math.degrees") and a:
+            x = interval(a[0])
+            if x:
+                return math.degrees(x[0]), math.degrees(x[1])
+        if n in ("numpy.deg2rad", "numpy.radians", "math.radians") and a:
+            x = interval(a[0])
+            if x:
+                return math.radians(x[0]), math.radians(x[1])
+        if n == "numpy.linalg.norm":
+            return 0.0, INF
+        if n.endswith("lie_algebra.so3_log_angle"):
+            deg = any(k == "degrees" and tm.is_const(v, True)
+                      for k, v in t.args[2]) or (
+                len(a) > 1 and tm.is_const(a[1], True))
+            return (0.0, 180.0) if deg else (0.0, math.pi)
+        if n in ("numpy.array", "numpy.asarray", "builtins.float") and a:
+            return interval(a[0])
+        if n in ("numpy.minimum", "builtins.min") and len(a) == 2:
+            x, y = interval(a[0]), interval(a[1])
+            if x and y:
+                return min(x[0], y[0]), min(x[1], y[1])
+            if x:
+                return -INF, x[1]
+            if y:
+                return -INF, y[1]
+        return None
+    if t.op == "binop":
+        x, y = interval(t.args[1]), interval(t.args[2])
+        if x is None or y is None:
+            return None
+        op = t.args[0]
+        if op == "Add":
+            return x[0] + y[0], x[1] + y[1]
+        if op == "Sub":
+            return x[0] - y[1], x[1] - y[0]
+        if op == "Mult":
+            c = [x[0] * y[0], x[0] * y[1], x[1] * y[0], x[1] * y[1]]
+            c = [v for v in c if v == v]
+            return (min(c), max(c)) if c else None
+        if op == "Div" and (y[0] > 0 or y[1] < 0):
+            c = [x[0] / y[0], x[0] / y[1], x[1] / y[0], x[1] / y[1]]
+            return min(c), max(c)
+        return None
+    if t.op == "unop" and t.args[0] == "USub":
+        x = interval(t.args[1])
+        return (-x[1], -x[0]) if x else None
+    if t.op == "comp":
+        return interval(t.args[1])
+    if t.op == "ite":
+        x, y = interval(t.args[1]), interval(t.args[2])
+        if x and y:
+            return min(x[0], y[0]), max(x[1], y[1])
+    return None
